@@ -20,7 +20,8 @@ def run(pid, seed):
     if os.path.exists(script):
         env = dict(os.environ, PYTHONPATH=repo_root() + os.pathsep + HERE, XYZPY_VERIF_REPO=repo_root(), VERIF_SEED=str(seed))
         t0 = time.time()
-        p = subprocess.run(["/venv/bin/python", script], input="{}", capture_output=True, text=True, timeout=3000, env=env, cwd=HERE)
+        env["VERIF_TIER"] = "thorough"
+        p = subprocess.run(["/venv/bin/python", script], input=json.dumps({"tier": "thorough"}), capture_output=True, text=True, timeout=3000, env=env, cwd=HERE)
         out = p.stdout.strip().splitlines()
         try:
             res = json.loads(out[-1]) if out else {}
